@@ -34,5 +34,12 @@ else
     cat "$ROOT/.build/build.log"; echo "ERROR: build failed"; exit 2
   fi
 fi
+if [ "$ID" = C18 ]; then
+  # the data-race clause is decided by a free-running -race build of the same bodies
+  if ! go build -race -o "$ROOT/.build/vcheck-race" ./cmd/vcheck 2> "$ROOT/.build/build-race.log"; then
+    cat "$ROOT/.build/build-race.log"; echo "ERROR: -race build failed"; exit 2
+  fi
+  export VERIF_RACE_BIN="$ROOT/.build/vcheck-race"
+fi
 cd "$ROOT"
 exec "$BIN" -prop "$ID" -tier "$TIER"
